@@ -573,10 +573,11 @@ def run(tier):
     rep.assumptions = ["memory bound: 40 MiB (8 MiB + twice the protocol maximum of one handshake message, 2^24: the message and one transient copy) + 64 x bytes received, peak of BOTH endpoints; work bound: 200 000 + 400 x bytes generator steps"]
     F = FL.flavour
     flavs = [F(3, "ecdhe_rsa"), F(4, "tls13"), F(3, "dhe_rsa", reqCert="cert"), F(1, "rsa"), F(3, "srp_sha"), F(4, "tls13", reqCert="cert"),
+             F(4, "tls13_ecdsa", dc="ecdsa"),
              F(3, "ecdhe_ecdsa", ticket=True), F(0, "dhe_rsa"), F(4, "tls13", hrr=True), F(4, "tls13", resume="psk", tickets13=1),
              F(3, "rsa", resume="id"), F(2, "dh_anon"), F(3, "ecdhe_rsa", npn=True, reqCert="nocert")]
     if tier == "quick":
-        flavs = flavs[:6]
+        flavs = flavs[:7]
     with Pool(16) as pool:
         refs = pool.map(reference, [(i, f, r) for i, f in enumerate(flavs) for r in ("c", "s")])
     rnd = random.Random(repr((env.SEED, "c08")))
